@@ -595,7 +595,31 @@ func (c *Ctx) runTaint(errMethod, exec, res *ssa.Function) {
 		})
 		for i, s := range sources {
 			bad := ""
-			for _, u := range core.Users(s) {
+			var uses []ssa.Instruction
+			var collect func(v ssa.Value, depth int)
+			collect = func(v ssa.Value, depth int) {
+				for _, u := range core.Users(v) {
+					// one or two levels into in-target helpers that merely receive the error as a parameter
+					if ci, ok := u.(ssa.CallInstruction); ok && depth < 2 {
+						cal := ci.Common().StaticCallee()
+						if cal != nil && p.InTarget(cal) && cal.Blocks != nil && !isResultCtor(cal) && chain[cal] == "" {
+							followed := false
+							for ai, a := range ci.Common().Args {
+								if ai < len(cal.Params) && flowsFrom(a, v) {
+									collect(cal.Params[ai], depth+1)
+									followed = true
+								}
+							}
+							if followed {
+								continue
+							}
+						}
+					}
+					uses = append(uses, u)
+				}
+			}
+			collect(s, 0)
+			for _, u := range uses {
 				switch x := u.(type) {
 				case *ssa.Return, *ssa.If:
 				case *ssa.BinOp:
@@ -684,4 +708,17 @@ func onlyLogged(v ssa.Value) bool {
 		}
 	}
 	return logged
+}
+
+// flowsFrom: value a is v or a transparent derivative of v.
+func flowsFrom(a, v ssa.Value) bool {
+	if a == v {
+		return true
+	}
+	for _, s := range core.Sources(a) {
+		if s == v {
+			return true
+		}
+	}
+	return core.Strip(a) == v
 }
